@@ -242,7 +242,8 @@ def _run(v, tier, seed):
         # unit = 24 / H bytes: H units are the real fragment header.  Sizes 0..3 units, MTU 2..4 units, every packet 0, 1 or 2 times in any order
         gen_tun("u24_m2", ["exact", "raw"], 24, mtu=2, msgs=2, modes='{"all"}')
         gen_tun("u24_m3", ["exact", "raw"], 24, mtu=3, msgs=2)
-        gen_tun("u24_m4", ["exact", "raw"], 24, mtu=4, msgs=3 if not quick else 2, modes=ALLM if quick else '{"all"}')
+        gen_tun("u24_m4", ["exact", "raw"], 24, mtu=4, msgs=3 if not quick else 2)
+        if not quick: gen_tun("u24_m3_3", ["exact"], 24, mtu=3, sizes=(0, 1, 3), msgs=3, modes='{"all"}')
         # byte granularity at the minimum MTU (25 = header + 1) and where a second fragment just fits / just does not fit into a packet
         gen_tun("u1_m25", ["exact"], 1, H=24, mtu=25, sizes=(0, 1, 2), msgs=2, modes='{"all", "one"}', idbase=5)
         gen_tun("u1_m50", ["exact", "raw"], 1, H=24, mtu=50, sizes=(0, 1, 2, 3), msgs=2, idbase=5)
@@ -377,8 +378,8 @@ def _run(v, tier, seed):
         jobs_mc.append(ex.submit(mc, "MiniTunImpl", mini_cfg("gen_MC_mini_lossy.cfg", sizes=(0, 10, 20, 30), mtu=40, msgs=3, modes='{"all", "hold"}', dev=dev_mini, invs=MINI_INVS, props=["AbsRefines"]), "MiniTunImpl lossy"))
         jobs_mc.append(ex.submit(mc, "MiniTunImpl", mini_cfg("gen_MC_mini_lossy_2s.cfg", senders=(1, 2), sizes=(0, 20), mtu=40, msgs=2, copies=1 if quick else 2, modes='{"all"}', levels=(0,), dev=dev_mini, invs=MINI_INVS, props=["AbsRefines"]), "MiniTunImpl lossy two senders"))
         for comp in (True, False):
-            jobs_mc.append(ex.submit(mc, "MiniTunImpl", mini_cfg("gen_MC_mini_perfect_%d.cfg" % int(comp), faults="{}", sizes=(0, 1, 14, 15, 29) if quick else (0, 1, 2, 3, 9, 10, 14, 15, 24, 29, 30, 44), msgs=2 if quick else 3, comp=comp,
-                                                                 mtu=(17, 18, 30, 31, 45) if quick else (17, 18, 19, 26, 30, 31, 40, 45, 46, 60),
+            jobs_mc.append(ex.submit(mc, "MiniTunImpl", mini_cfg("gen_MC_mini_perfect_%d.cfg" % int(comp), faults="{}", sizes=(0, 1, 14, 15, 29) if quick else (0, 1, 2, 14, 15, 29, 30, 44), msgs=2 if quick else 3, comp=comp,
+                                                                 mtu=(17, 18, 30, 31, 45) if quick else (17, 18, 19, 30, 31, 45, 46, 60),
                                                                  dev=dev_mini, invs=MINI_INVS, props=["AbsRefines"]), "MiniTunImpl perfect MTU sweep compressible=%s" % comp, 2, 1500, "4g"))
         # vacuity: every invariant can fail
         R = lambda *a: jobs_reach.append(ex.submit(reach, *a))
